@@ -20,6 +20,10 @@ NH = 28      # history slots dumped per variant
 
 def make(rng, sid):
     p = gen_tree.shape_params(rng, "readdirs")
+    if rng.random() < 0.12:
+        # a configuration name with a directory part: <dir>/sub/cfg<suffix> and <dir>/sub/cfg<suffix>.d/
+        p["name"] = b"sub/cfg"
+        p["call"] = p["call"][:3] + (b"sub/cfg",) + p["call"][4:]
     sep = rng.random() < 0.15
     if sep:
         # directory names that contain the separators of the option syntax (`:` between directories, `;` between options):
